@@ -39,5 +39,25 @@ def spreadStore (old new : MapEnv) (scale : F64) (bins : List (Int × Rat)) (fue
 /-- exact accumulation of the (float-rounded) contributions; `none` if one of them is not finite -/
 def accumulate (l : List (Int × F64)) : Option Content := Wire.contentOf l
 
+/-- what `DDSketch.ChangeMapping` returns, with the two new stores abstracted as the contents they end
+    up holding (exact accumulation of the float contributions): the identity shortcut
+    (`scaleFactor == 1 && mapping.Equals(newMapping)`: a copy of the receiver), otherwise a sketch
+    carrying the NEW mapping, the receiver's zero count, and both sides re-binned. `none` when a
+    store cannot be listed or a contribution is not finite. -/
+def changeMapping (old new : MapEnv) (s : Sketch) (scale : F64) (fuel : Nat) : Option Sketch :=
+  if F64.eq scale F64.one && old.id.equals new.id then some s
+  else do
+    let p ← s.pos.binsList
+    let n ← s.neg.binsList
+    let cp ← accumulate (spreadStore old new scale p fuel)
+    let cn ← accumulate (spreadStore old new scale n fuel)
+    pure { mapping := some new.id, pos := .sp cp, neg := .sp cn, zero := s.zero }
+
+/-- `DDSketchWithExactSummaryStatistics.ChangeMapping`: the statistics are copied and rescaled by the
+    factor (even on the identity shortcut, where the factor is 1) -/
+def xchangeMapping (old new : MapEnv) (x : XSketch) (scale : F64) (fuel : Nat) : Option XSketch := do
+  let sk ← changeMapping old new x.sk scale fuel
+  pure { sk := sk, st := x.st.rescale scale }
+
 end ChangeMapping
 end DDS
